@@ -395,6 +395,14 @@ func zz4LatestHarness(tampered bool) {
 	cls := zz4Classify(err)
 
 	zz4Agree(cls, wantCls, tampered, "latest")
+	if tampered {
+		// the verdict must not depend on what earlier queries left in the
+		// process-wide cache: ask again, and ask a different reader
+		_, _, err2 := GetLatestReferenceUpdaterEntry(store, opts...)
+		zz4Agree(zz4Classify(err2), wantCls, tampered, "latest-repeated")
+		_, _, err3 := GetFirstReferenceUpdaterEntryForRef(store, "")
+		zz4Agree(zz4Classify(err3), zz4WalkAll(log), tampered, "first-after-latest")
+	}
 	if cls == zz4OK && wantCls == zz4OK {
 		verif.Reach("found")
 		verif.Assert(got.GetID().Equal(log[want].id), "entry")
@@ -460,6 +468,10 @@ func zz4FirstHarness(tampered bool) {
 		}
 	}
 	zz4Agree(cls, wantCls, tampered, "first")
+	if tampered {
+		_, _, err2 := GetFirstReferenceUpdaterEntryForRef(store, ref)
+		zz4Agree(zz4Classify(err2), wantCls, tampered, "first-repeated")
+	}
 	if cls == zz4OK && wantCls == zz4OK {
 		verif.Reach("found")
 		verif.Assert(got.GetID().Equal(log[want].id), "first-entry")
@@ -505,6 +517,10 @@ func zz4NonGittufParentHarness(tampered bool) {
 		i, wantCls = zz4Step(log, i)
 	}
 	zz4Agree(cls, wantCls, tampered, "parent")
+	if tampered {
+		_, _, err2 := GetNonGittufParentReferenceUpdaterEntryForEntry(store, log[at].entry)
+		zz4Agree(zz4Classify(err2), wantCls, tampered, "parent-repeated")
+	}
 	if cls == zz4OK && wantCls == zz4OK {
 		verif.Reach("found")
 		verif.Assert(got.GetID().Equal(log[want].id), "parent-entry")
@@ -552,6 +568,10 @@ func zz4RangeHarness(tampered bool) {
 		i, wantCls = zz4Step(log, i) // walking below the root yields not-found (first newer than last)
 	}
 	zz4Agree(cls, wantCls, tampered, "range")
+	if tampered {
+		_, _, err2 := GetReferenceUpdaterEntriesInRangeForRef(store, zz4ID(first), zz4ID(last), ref)
+		zz4Agree(zz4Classify(err2), wantCls, tampered, "range-repeated")
+	}
 	if cls != zz4OK || wantCls != zz4OK {
 		if cls != zz4OK && wantCls != zz4OK {
 			verif.Reach("error-agreed")
